@@ -93,9 +93,12 @@ class C07:
         env = E.make_env(cfg)
         B = rc.choice([1, 2, 2, 3, 3, 4, 5])
         rows = E.gen_rows(env, cfg, B, st.torch_seed("instances"))
+        source = "generator"
+        if name == "smtwtp" and rc.random() < 0.4:
+            rows, source = E.hand_format(name, rows, rc)
         strategies = [rc.choice(STRATEGIES) for _ in range(B)]
         plan = {"cfg": cfg, "instances": [E.enc_row(r) for r in rows], "strategies": strategies,
-                "source": "generator", "perturb": [],
+                "source": source, "perturb": [],
                 # one run in five leaves the tick oracle off so that a state the dispatcher would stop at
                 # is driven on to its final schedule and judged by the validator alone
                 "tick_oracle": rc.random() < 0.8}
